@@ -127,6 +127,16 @@ def check_tree(U, d, rec: Rec, cfg):
                     rec.violation("C02|non-node|eq", dict(case, other=repr(other)), "comparison with a non-node must be False")
             except Exception as e:  # noqa: BLE001
                 rec.violation("C02|non-node|raises", dict(case, other=repr(other)), f"comparison with a non-node raised {type(e).__name__}")
+    # every ordered pair of complete assignments over {none, a, b}: origins that MOVE between positions
+    if n <= cfg["npair"] + 1:
+        items = list(nodes.items())
+        for (ca, a), (cb, b) in itertools.product(items, repeat=2):
+            compare(rec, a, b, ca == cb, {"tree": d, "origins_a": list(ca), "origins_b": list(cb)}, "assignment-pair")
+    else:  # larger trees: one origin moved from one position to another (two positions differ)
+        for i, j in itertools.permutations(range(n), 2):
+            ca = tuple("a" if t == i else "-" for t in range(n))
+            cb = tuple("a" if t == j else "-" for t in range(n))
+            compare(rec, nodes[ca], nodes[cb], False, {"tree": d, "origins_a": list(ca), "origins_b": list(cb)}, "assignment-pair")
     # every pair of letters of the full origin alphabet at every single position (the rest without origin)
     base = {p: "-" for p in paths}
     for i, p in enumerate(paths):
@@ -168,6 +178,12 @@ def check_pairs(U, trees, rec: Rec, cfg):
 
 def run_shard(cfg):
     rec = Rec(cfg)
+    # configuration dimension: every third shard runs with runtime type checking on (all inputs are well typed,
+    # so nothing may change)
+    from pyoak import config as _config
+
+    _config.RUNTIME_TYPE_CHECK = cfg["k"] % 3 == 2
+    rec.extra["runtime_type_check_in_shard_2_mod_3"] = True
     rec.extra['first_use'] = zoo.warm_up(cfg['k'])
     U = zoo.universe(UNIV)
     idx = 0
